@@ -101,17 +101,21 @@ theorem checked_kernel_any_schedule (k : Kernel) (hc : checkKernel k = true)
 
 def exLoop : List (String × SExpr × SExpr) := [("i", .int 0, .int 3)]
 /-- `t1[i] = a[i] + 1` -/
-def exS1 : KStmt := { id := "s1", lhs := "t1", lhsIdx := [.var "i"], loops := exLoop, lets := [],
-  rhs := .add (.sub "a" [.var "i"]) (.int 1), deps := [] }
+def exS1 : KStmt :=
+  { id := "s1", lhs := "t1", lhsIdx := [.var "i"], loops := exLoop, lets := []
+    rhs := .add (.sub "a" [.var "i"]) (.int 1), deps := [] }
 /-- a no-op that depends on `s1` (loopy barrier-like instruction) -/
-def exN0 : KStmt := { id := "n0", lhs := "", lhsIdx := [], loops := [], lets := [], rhs := .int 0,
-  deps := ["s1"], noop := true }
+def exN0 : KStmt :=
+  { id := "n0", lhs := "", lhsIdx := [], loops := [], lets := [], rhs := .int 0
+    deps := ["s1"], noop := true }
 /-- `t2[i] = a[i] * c` with a per-iteration let `c = 2` -/
-def exS2 : KStmt := { id := "s2", lhs := "t2", lhsIdx := [.var "i"], loops := exLoop,
-  lets := [("c", .int 2)], rhs := .mul (.sub "a" [.var "i"]) (.var "c"), deps := [] }
+def exS2 : KStmt :=
+  { id := "s2", lhs := "t2", lhsIdx := [.var "i"], loops := exLoop, lets := [("c", .int 2)]
+    rhs := .mul (.sub "a" [.var "i"]) (.var "c"), deps := [] }
 /-- `out[i] = t1[i] + t2[i]`; reaches `s1` only through the no-op (transitive dependency) -/
-def exS3 : KStmt := { id := "s3", lhs := "out", lhsIdx := [.var "i"], loops := exLoop, lets := [],
-  rhs := .add (.sub "t1" [.var "i"]) (.sub "t2" [.var "i"]), deps := ["n0", "s2"] }
+def exS3 : KStmt :=
+  { id := "s3", lhs := "out", lhsIdx := [.var "i"], loops := exLoop, lets := []
+    rhs := .add (.sub "t1" [.var "i"]) (.sub "t2" [.var "i"]), deps := ["n0", "s2"] }
 def exKernel : Kernel := [exS1, exN0, exS2, exS3]
 def exOrder2 : List KStmt := [exS2, exS1, exN0, exS3]
 def exZeros : Arr Val := ⟨[3], fun _ => .i 0⟩
